@@ -234,28 +234,32 @@ func evalC14(c *Ctx, cs *Case) {
 					}
 				}
 				for i := 0; i < writes; i++ {
-					for _, short := range []bool{false, true} {
+					for variant := 0; variant < 3; variant++ {
+						short, transient := variant == 1, variant == 2
 						cs.Entry = "Output" + fam + "[" + m.name + "]," + mode
 						cs.N = []int{i, writes}
 						cs.Tags = append(append([]string(nil), baseTags...), "writer-fault", mode, m.name)
 						if short {
 							cs.AddTag("short-write")
 						}
+						if transient {
+							cs.AddTag("transient-failure")
+						}
 						if massive {
 							c.Rejournal(cs)
 						}
 						w := mon.NewRecWriter()
-						w.FailAt, w.Short = i, short
+						w.FailAt, w.Short, w.Transient = i, short, transient
 						base := runtime.NumGoroutine()
 						o := run(w)
 						if massive {
 							c14Quiet.Quiesce(base)
 						}
 						_, failed, _ := w.Stats()
-						c.Eval(gen.HashString(string(doc)+"\x00W"+cs.Entry+strconv.Itoa(i)+strconv.FormatBool(short)), true)
+						c.Eval(gen.HashString(string(doc)+"\x00W"+cs.Entry+strconv.Itoa(i)+strconv.Itoa(variant)), true)
 						c.Count("writer_faults", 1)
 						c.SetAdd("entries", cs.Entry)
-						det := map[string]any{"doc": string(doc), "write_index": i, "writes": writes, "short": short, "failed_writes": failed, "err": errStr(o.Err), "accepted": trunc(string(w.Bytes()), 600)}
+						det := map[string]any{"doc": string(doc), "write_index": i, "writes": writes, "short": short, "transient": transient, "failed_writes": failed, "err": errStr(o.Err), "accepted": trunc(string(w.Bytes()), 600)}
 						switch {
 						case o.Panic != nil:
 							det["stack"] = o.Stack
